@@ -135,3 +135,43 @@ func Harness_SCHEMA_strict_v1_tpl_unused()   { checkSchemaCreate(SchemaEnforceme
 func Harness_SCHEMA_audit_v1_tpl_unused()    { checkSchemaCreate(SchemaEnforcementAudit, "v1", true, false) }
 func Harness_SCHEMA_strict_v1_tpl_undefined() { checkSchemaCreate(SchemaEnforcementStrict, "v1", false, true) }
 func Harness_SCHEMA_audit_v1_tpl_used()      { checkSchemaCreate(SchemaEnforcementAudit, "v1", true, true) }
+
+// A request that names a template and also carries a script of its own: "uses a template" means the
+// template's script is the one that runs (here the caller's script would move 999 to @bank, which the
+// chart accepts, so only the template rule stands in the way).
+const schemaOwnScript = `
+vars {
+	account $dst
+}
+send [USD/2 999] (
+	source = @world
+	destination = @bank
+)
+set_account_meta($dst, "seen", "yes")
+`
+
+func checkTemplateAndOwnScript(mode SchemaEnforcementMode) {
+	db, ctrl := setupSchemaLedger(mode, true)
+	pre := db.clone()
+	seg := nondetStr("segment", 3)
+	verifAssume(schemaSegAlphabet.MatchString(seg))
+	dst := "acc:" + seg
+	in := CreateTransaction{RunScript: vm.RunScript{Script: vm.Script{Plain: schemaOwnScript, Template: "deposit", Vars: map[string]string{"dst": dst}}}}
+	_, out, _, err := ctrl.CreateTransaction(bg, Parameters[CreateTransaction]{SchemaVersion: "v1", Input: in})
+	if err != nil {
+		verifAssert("C29:rejected-write-has-no-effect", stateDiff(pre.committed, db.committed, true) == "")
+		verifReach("rejected")
+		verifReach("end")
+		return
+	}
+	ps := out.Transaction.Postings
+	verifAssert("C29:a-named-template-is-the-script-that-runs", len(ps) == 1 && ps[0].Destination == dst && ps[0].Amount.Int64() == 10)
+	if mode == SchemaEnforcementStrict {
+		verifAssert("C29:strict-acceptance-means-the-chart-accepts-every-posting-account", chartAcceptsAcc(seg))
+	}
+	verifReach("accepted")
+	verifReach("end")
+}
+
+func Harness_SCHEMA_strict_v1_tpl_and_own_script() { checkTemplateAndOwnScript(SchemaEnforcementStrict) }
+func Harness_SCHEMA_audit_v1_tpl_and_own_script()  { checkTemplateAndOwnScript(SchemaEnforcementAudit) }
